@@ -84,7 +84,10 @@ let check inp obs =
       let rdump = if s.g_roots = [] then "-" else dump_nodes s.g_roots in
       toks := List.rev_append [res_str r; "s=" ^ hex_of_n s.g_setid; "a=" ^ a; "n=" ^ n; "x=" ^ String.concat "," xs;
                                "F=" ^ fdump; "R=" ^ rdump] !toks;
-      if r <> ROk then stop := true;
+      (* second round: the history goes on after a failing event (the block is in the block state
+         anyway, core.Service just reports the error); the comparison with the specification ends
+         at the first failing event, the comparison with the Go model does not *)
+      if r <> ROk then tag "continued-after-error";
       (* --- specification vs implementation --- *)
       (match !impl with
        | [] -> if !why = [] then why := [Printf.sprintf "ev%d(%s):missing" !nev ev]
@@ -170,6 +173,67 @@ let check inp obs =
                 Printf.sprintf "%s%s" (String.concat "; " !why) (if eq then "" else " model=" ^ model)) }
   | _ -> fail "C23: bad input %s" inp
 
+(* vm_compute cross-check: the history re-run on the Go model inside Coq (VmCheck.vm_case) *)
+let coq inp obs =
+  let coq_nat i = Printf.sprintf "(%d)%%nat" i in
+  let strip p s = let l = String.length p in
+    if String.length s >= l && String.sub s 0 l = p then String.sub s l (String.length s - l) else raise Exit in
+  let on = function "-" -> "None" | "?" | "!" -> raise Exit | x -> Printf.sprintf "(Some %s)" (coq_n (n_of_hex x)) in
+  (* R=<blk>(<children>)<blk>(...)... *)
+  let parse_shapes s =
+    let n = String.length s in
+    let rec nodes i acc =            (* parses siblings until ')' or end; returns (list, next index) *)
+      if i >= n || s.[i] = ')' then (List.rev acc, i) else begin
+        let j = ref i in
+        while !j < n && s.[!j] <> '(' do incr j done;
+        if !j >= n then raise Exit;
+        let b = ioh (String.sub s i (!j - i)) in
+        let (ch, k) = nodes (!j + 1) [] in
+        if k >= n || s.[k] <> ')' then raise Exit;
+        nodes (k + 1) (Printf.sprintf "Sh %s [%s]" (coq_nat b) (String.concat "; " ch) :: acc)
+      end in
+    let (l, k) = nodes 0 [] in
+    if k <> n then raise Exit; l in
+  match split_ws inp with
+  | ["hist"; bl; cl; el] ->
+    (try
+      let t = List.map ioh (lst bl) in
+      let sched = ref [] and forced = ref [] in
+      List.iter (fun c -> match String.split_on_char ',' (sub c 1) with
+        | [b; d; a] when c.[0] = 's' ->
+          sched := Printf.sprintf "(%s, mkpc %s %s %s 0%%N)" (coq_nat (ioh b)) (coq_nat (ioh b)) (coq_n (n_of_hex d)) (coq_n (n_of_hex a)) :: !sched
+        | [b; d; a; f] when c.[0] = 'f' ->
+          forced := Printf.sprintf "(%s, mkpc %s %s %s %s)" (coq_nat (ioh b)) (coq_nat (ioh b)) (coq_n (n_of_hex d)) (coq_n (n_of_hex a)) (coq_n (n_of_hex f)) :: !forced
+        | _ -> raise Exit) (lst cl);
+      let chunks = chunk7 (split_ws obs) in
+      let evs = lst el in
+      if List.length chunks > List.length evs then raise Exit;
+      let one i (r, s, a, n, x, f, rr) =
+        let ev = List.nth evs i in
+        let e = Printf.sprintf "%s %s" (if ev.[0] = 'i' then "Import" else "Finalise") (coq_nat (ioh (sub ev 1))) in
+        let res = match r with "ok" -> "ROk" | "err:digest" -> "RErrDigest" | "err:forced" -> "RErrForced"
+                               | "err:sched" -> "RErrSched" | _ -> raise Exit in
+        let auths = List.map on (String.split_on_char '.' (strip "a=" a)) in
+        let byn = List.map on (String.split_on_char '.' (strip "n=" n)) in
+        let xs = strip "x=" x in
+        let next = if xs = "" then [] else List.map (fun bx -> match String.split_on_char ':' bx with
+          | [b; v] -> Printf.sprintf "(%s, %s)" (coq_nat (ioh b))
+              (if v = "!" then "None" else if v = "-" then "(Some None)" else Printf.sprintf "(Some (Some %s))" (coq_n (n_of_hex v)))
+          | _ -> raise Exit) (String.split_on_char ',' xs) in
+        let fs = strip "F=" f in
+        let fl = if fs = "-" then [] else List.map (fun b -> coq_nat (ioh b)) (String.split_on_char '.' fs) in
+        let rs = strip "R=" rr in
+        let shapes = if rs = "-" then [] else parse_shapes rs in
+        Printf.sprintf "(%s, mkvobs %s %s [%s] [%s] [%s] [%s] [%s])" e res (coq_n (n_of_hex (strip "s=" s)))
+          (String.concat "; " auths) (String.concat "; " byn) (String.concat "; " next)
+          (String.concat "; " fl) (String.concat "; " shapes) in
+      Some (Printf.sprintf "vm_case [%s] [%s] [%s] [%s]"
+        (String.concat "; " (List.map coq_nat t))
+        (String.concat "; " !sched) (String.concat "; " !forced)
+        (String.concat "; " (List.mapi one chunks)))
+    with Exit | Failure _ | Not_found | Invalid_argument _ -> None)
+  | _ -> None
+
 (* `model --sweep nb dmax kmax`: the exhaustive comparison of Enum.explore_all run by the extracted
    code (cross-checks the vm_compute sweeps of Exhaustive*.v and reaches larger scopes in the
    thorough tier) *)
@@ -180,4 +244,4 @@ let () =
     Printf.printf "sweep nb=%s dmax=%s kmax=%s configs=%d result=%b\n" Sys.argv.(2) Sys.argv.(3) Sys.argv.(4)
       (int_of_nat (count_configs (a 2) (a 3) (a 4))) ok;
     exit (if ok then 0 else 1)
-  end else run_driver check
+  end else run_driver ~coq check
